@@ -228,6 +228,7 @@ inline bool read_file(const std::string& path, std::string& content)
 }
 
 inline int& extreme_counter();   // slot counter of the value sets of formatting extremes (defined below)
+inline bool& nf_verbose() { static bool v = false; return v; }   // verbose argument passed to createFromNF (C09 sets it for some faults)
 template<class T> struct Reg
 {
   ClassDef d;
@@ -394,7 +395,7 @@ inline void register_db()
         db->setLocator(names.back(), t, 0);
       }
       return db; })
-    .fromNF([](const std::string& p) { return Db::createFromNF(p, false); })
+    .fromNF([](const std::string& p) { return Db::createFromNF(p, nf_verbose()); })
     .getters([](const Db& db, Fp& fp) { db_getters(db, fp); })
     .probe([](Db& db, Fp& fp) { db_probe(db, fp); })
     .invariants([](Db& db) { return db_invariants(db); })
@@ -429,7 +430,7 @@ inline void register_dbgrid()
       }
       for (int i = 0; i < ntot; i++) for (int v = 0; v < nvar; v++) tab.push_back(pick_value(vset, i, v));
       return DbGrid::create(nx, dx, x0, ang, ELoadBy::SAMPLE, tab, names, locs, flags != 1, flags != 2); })
-    .fromNF([](const std::string& p) { return DbGrid::createFromNF(p, false); })
+    .fromNF([](const std::string& p) { return DbGrid::createFromNF(p, nf_verbose()); })
     .getters([](const DbGrid& g, Fp& fp) {
       fp.I("grid:ndim", g.getNDim());
       for (int d = 0; d < g.getNDim(); d++)
@@ -580,7 +581,7 @@ inline void register_model()
         }
       }
       return m; })
-    .fromNF([](const std::string& p) { return Model::createFromNF(p, false); })
+    .fromNF([](const std::string& p) { return Model::createFromNF(p, nf_verbose()); })
     .getters([](const Model& m, Fp& fp) { model_getters(m, fp); })
     .probe([](Model& m, Fp& fp) { model_probe(m, fp); })
     .invariants([](Model& m) {
@@ -595,7 +596,7 @@ inline void register_model()
       if ((int)m.getMeans().size() != nvar) return std::string("means-size");
       return std::string(""); })
     .nontrivial([](const std::vector<int>& x) { return x[4] >= 1 || x[5] >= 1 || x[3] >= 1; })
-    .corpus({{1, 0, 0, 0, 0, 0, 0}, {1, 1, 2, 1, 2, 2, 0}})
+    .corpus({{1, 1, 2, 1, 2, 2, 0}, {1, 0, 0, 0, 0, 0, 0}})
     .done();
 }
 
@@ -646,7 +647,7 @@ inline void register_model_drift()
         else { DriftM dm(d.powers); m->addDrift(&dm); }
       }
       return m; })
-    .fromNF([](const std::string& p) { return Model::createFromNF(p, false); })
+    .fromNF([](const std::string& p) { return Model::createFromNF(p, nf_verbose()); })
     .getters([](const Model& m, Fp& fp) { model_getters(m, fp); })
     .probe([](Model& m, Fp& fp) { model_probe(m, fp); })
     .nontrivial([](const std::vector<int>&) { return true; })
@@ -693,7 +694,7 @@ inline void register_neigh()
   Reg<NeighUnique>("NeighUnique")
     .space([](bool) { Space s; s.axis("ndim", 3).axis("xvalid", 2); return s; })
     .build([](const std::vector<int>& x) -> NeighUnique* { SpaceRN sp(x[0] + 1); return NeighUnique::create(x[1] != 0, &sp); })
-    .fromNF([](const std::string& p) { return NeighUnique::createFromNF(p, false); })
+    .fromNF([](const std::string& p) { return NeighUnique::createFromNF(p, nf_verbose()); })
     .getters([](const NeighUnique& n, Fp& fp) { fp.I("dims:ndim", n.getNDim()); fp.S("type:type", std::string(n.getType().getKey())); })
     .probe([](NeighUnique& n, Fp& fp) { neigh_probe(n, fp); })
     .nontrivial([](const std::vector<int>& x) { return x[0] != 1; })
@@ -718,7 +719,7 @@ inline void register_neigh()
       if (an == 3) { angles = {-45., 20., 10.}; angles.resize(ndim, 0.); }
       SpaceRN sp(ndim);
       return NeighMoving::create(false, nmaxi, radius, nmini, nsect, nsmax, coeffs, angles, &sp); })
-    .fromNF([](const std::string& p) { return NeighMoving::createFromNF(p, false); })
+    .fromNF([](const std::string& p) { return NeighMoving::createFromNF(p, nf_verbose()); })
     .getters([](const NeighMoving& n, Fp& fp) {
       fp.I("dims:ndim", n.getNDim());
       fp.I("counts:nmini", n.getNMini()); fp.I("counts:nmaxi", n.getNMaxi()); fp.I("counts:nsect", n.getNSect()); fp.I("counts:nsmax", n.getNSMax());
@@ -760,7 +761,7 @@ inline void register_table()
         t->setRowNames(rn); t->setColumnNames(cn); t->setTitle("title");
       }
       return t; })
-    .fromNF([](const std::string& p) { return Table::createFromNF(p, false); })
+    .fromNF([](const std::string& p) { return Table::createFromNF(p, nf_verbose()); })
     .getters([](const Table& t, Fp& fp) {
       fp.I("dims:nrows", t.getNRows()); fp.I("dims:ncols", t.getNCols());
       for (int i = 0; i < t.getNRows(); i++) for (int j = 0; j < t.getNCols(); j++) fp.D("value:(" + std::to_string(i) + "," + std::to_string(j) + ")", t.getValue(i, j, false));
@@ -818,7 +819,7 @@ inline void register_polygons()
         P->addPolyElem(e);
       }
       return P; })
-    .fromNF([](const std::string& p) { return Polygons::createFromNF(p, false); })
+    .fromNF([](const std::string& p) { return Polygons::createFromNF(p, nf_verbose()); })
     .getters([](const Polygons& P, Fp& fp) {
       fp.I("count:npol", P.getPolyElemNumber());
       for (int k = 0; k < P.getPolyElemNumber(); k++)
@@ -968,7 +969,7 @@ inline void register_vario()
       int err = v->compute(kind == 2 ? (Db*)grid.get() : db.get(), ECalcVario::fromKey(CALC[calc]));
       if (err) { delete v; return nullptr; }
       return v; })
-    .fromNF([](const std::string& p) { return Vario::createFromNF(p, false); })
+    .fromNF([](const std::string& p) { return Vario::createFromNF(p, nf_verbose()); })
     .getters([](const Vario& v, Fp& fp) { vario_getters(v, fp); })
     .probe([](Vario& v, Fp& fp) {
       for (int id = 0; id < v.getDirectionNumber(); id++)
@@ -1033,7 +1034,7 @@ inline void register_anam()
       }
       if (x[4]) a->setRCoef(0.75);
       return a; })
-    .fromNF([](const std::string& p) { return AnamHermite::createFromNF(p, false); })
+    .fromNF([](const std::string& p) { return AnamHermite::createFromNF(p, nf_verbose()); })
     .getters([](const AnamHermite& a, Fp& fp) {
       fp.D("rcoef:rcoef", a.getRCoef());
       fp.VD("psi:psiHn", a.getPsiHns());
@@ -1062,7 +1063,7 @@ inline void register_anam()
         a->setDisc(z, y);
       }
       return a; })
-    .fromNF([](const std::string& p) { return AnamEmpirical::createFromNF(p, false); })
+    .fromNF([](const std::string& p) { return AnamEmpirical::createFromNF(p, nf_verbose()); })
     .getters([](const AnamEmpirical& a, Fp& fp) {
       anamcont_getters(a, fp);
       fp.I("disc:ndisc", a.getNDisc()); fp.D("sigma2e:sigma2e", a.getSigma2e());
@@ -1086,7 +1087,7 @@ inline void register_anam()
       for (int i = 0; i < nc; i++) for (int j = 0; j < nc; j++) { f2z.setValue(i, j, i == j ? 2. : 0.5 * (i + 1)); z2f.setValue(i, j, i == j ? 0.5 : -0.125 * (j + 1)); }
       a->setPcaF2Z(f2z); a->setPcaZ2F(z2f);
       return a; })
-    .fromNF([](const std::string& p) { return AnamDiscreteDD::createFromNF(p, false); })
+    .fromNF([](const std::string& p) { return AnamDiscreteDD::createFromNF(p, nf_verbose()); })
     .getters([](const AnamDiscreteDD& a, Fp& fp) {
       fp.I("dims:ncut", a.getNCut()); fp.I("dims:nclass", a.getNClass()); fp.I("dims:nelem", a.getNElem());
       fp.VD("cuts:zcut", a.getZCut()); fp.VD("stats:stats", a.getStats().getValues());
@@ -1104,7 +1105,7 @@ inline void register_anam()
       a->setZCut(zc);
       if (a->fitFromArray(anam_data(x[1])) != 0) { delete a; return nullptr; }
       return a; })
-    .fromNF([](const std::string& p) { return AnamDiscreteIR::createFromNF(p, false); })
+    .fromNF([](const std::string& p) { return AnamDiscreteIR::createFromNF(p, nf_verbose()); })
     .getters([](const AnamDiscreteIR& a, Fp& fp) {
       fp.I("dims:ncut", a.getNCut()); fp.I("dims:nclass", a.getNClass()); fp.I("dims:nelem", a.getNElem());
       fp.VD("cuts:zcut", a.getZCut()); fp.VD("stats:stats", a.getStats().getValues());
@@ -1150,7 +1151,7 @@ inline void register_mesh()
       MeshETurbo* m = MeshETurbo::createFromGrid(g.get(), x[4] != 0, false, x[5] == 2 ? 0 : 1);   // mask 1: map storage, mask 2: array storage
       if (m != nullptr && (m->getNApices() <= 0 || m->getNMeshes() <= 0)) { delete m; return nullptr; }
       return m; })
-    .fromNF([](const std::string& p) { return MeshETurbo::createFromNF(p, false); })
+    .fromNF([](const std::string& p) { return MeshETurbo::createFromNF(p, nf_verbose()); })
     .getters([](const MeshETurbo& m, Fp& fp) {
       mesh_getters(m, fp);
       const Grid& g = m.getGrid();
@@ -1173,7 +1174,7 @@ inline void register_mesh()
       MatrixInt ms(nm, ndim + 1);
       for (int m = 0; m < nm; m++) for (int r = 0; r < ndim + 1; r++) ms.setValue(m, r, m == 0 ? r : r + 1);
       return MeshEStandard::createFromExternal(ap, ms, false); })
-    .fromNF([](const std::string& p) { return MeshEStandard::createFromNF(p, false); })
+    .fromNF([](const std::string& p) { return MeshEStandard::createFromNF(p, nf_verbose()); })
     .getters([](const MeshEStandard& m, Fp& fp) { mesh_getters(m, fp); fp.VI("meshes:list", m.getMeshList()); fp.VD("apices:list", m.getPointList(true)); })
     .probe([](MeshEStandard& m, Fp& fp) { mesh_probe(m, fp); })
     .nontrivial([](const std::vector<int>& x) { return x[1] || x[2]; })
@@ -1208,7 +1209,7 @@ inline void register_rule()
   Reg<Rule>("Rule")
     .space([](bool) { Space s; s.axis("tree", (int)rule_menu().size()).axis("rho", 3); return s; })
     .build([](const std::vector<int>& x) -> Rule* { return Rule::createFromNames(rule_menu()[x[0]], std::vector<double>{0., 0.5, -0.75}[x[1]]); })
-    .fromNF([](const std::string& p) { return Rule::createFromNF(p, false); })
+    .fromNF([](const std::string& p) { return Rule::createFromNF(p, nf_verbose()); })
     .getters([](const Rule& r, Fp& fp) { rule_getters(r, fp); })
     .probe([](Rule& r, Fp& fp) { rule_probe(r, fp); })
     .nontrivial([](const std::vector<int>& x) { return x[0] > 0; })
@@ -1248,7 +1249,7 @@ inline void register_neigh2()
   Reg<NeighBench>("NeighBench")
     .space([](bool) { Space s; s.axis("ndim", 2).axis("width", 3).axis("xvalid", 2); return s; })
     .build([](const std::vector<int>& x) -> NeighBench* { SpaceRN sp(x[0] + 2); return NeighBench::create(x[2] != 0, std::vector<double>{1., 0.75, 2.5}[x[1]], &sp); })
-    .fromNF([](const std::string& p) { return NeighBench::createFromNF(p, false); })
+    .fromNF([](const std::string& p) { return NeighBench::createFromNF(p, nf_verbose()); })
     .getters([](const NeighBench& n, Fp& fp) { fp.I("dims:ndim", n.getNDim()); fp.D("width:width", n.getWidth()); })
     .probe([](NeighBench& n, Fp& fp) { neigh_probe(n, fp); })
     .nontrivial([](const std::vector<int>& x) { return x[1] > 0; })
@@ -1258,7 +1259,7 @@ inline void register_neigh2()
   Reg<NeighCell>("NeighCell")
     .space([](bool) { Space s; s.axis("ndim", 3).axis("nmini", 3); return s; })
     .build([](const std::vector<int>& x) -> NeighCell* { SpaceRN sp(x[0] + 1); return NeighCell::create(false, std::vector<int>{1, 3, 7}[x[1]], &sp); })
-    .fromNF([](const std::string& p) { return NeighCell::createFromNF(p, false); })
+    .fromNF([](const std::string& p) { return NeighCell::createFromNF(p, nf_verbose()); })
     .getters([](const NeighCell& n, Fp& fp) { fp.I("dims:ndim", n.getNDim()); fp.I("nmini:nmini", n.getNMini()); })
     .nontrivial([](const std::vector<int>& x) { return x[1] > 0; })
     .corpus({{1, 0}})
@@ -1270,7 +1271,7 @@ inline void register_neigh2()
       int ndim = x[0] + 1; SpaceRN sp(ndim);
       VectorInt r(ndim); for (int d = 0; d < ndim; d++) r[d] = std::vector<int>{1, 2, 3}[(x[1] + d) % 3];
       return NeighImage::create(r, x[2], &sp); })
-    .fromNF([](const std::string& p) { return NeighImage::createFromNF(p, false); })
+    .fromNF([](const std::string& p) { return NeighImage::createFromNF(p, nf_verbose()); })
     .getters([](const NeighImage& n, Fp& fp) { fp.I("dims:ndim", n.getNDim()); fp.I("skip:skip", n.getSkip()); fp.VI("radius:radius", n.getImageRadius()); })
     .nontrivial([](const std::vector<int>& x) { return x[2] > 0 || x[0] != 1; })
     .corpus({{1, 0, 0}})
@@ -1283,7 +1284,7 @@ inline void register_lines()
   Reg<PolyLine2D>("PolyLine2D")
     .space([](bool) { Space s; s.axis("shape", 6).axis("shift", 2); return s; })
     .build([](const std::vector<int>& x) -> PolyLine2D* { VectorDouble px, py; ring(x[0], x[0] >= 4 ? 0 : x[1], px, py); return new PolyLine2D(px, py); })
-    .fromNF([](const std::string& p) { return PolyLine2D::createFromNF(p, false); })
+    .fromNF([](const std::string& p) { return PolyLine2D::createFromNF(p, nf_verbose()); })
     .getters([](const PolyLine2D& p, Fp& fp) { polyline_getters(p, fp, ""); })
     .nontrivial([](const std::vector<int>& x) { return x[0] > 0; })
     .corpus({{0, 0}})
@@ -1292,7 +1293,7 @@ inline void register_lines()
   Reg<PolyElem>("PolyElem")
     .space([](bool) { Space s; s.axis("shape", 6).axis("zlim", 4); return s; })
     .build([](const std::vector<int>& x) -> PolyElem* { VectorDouble px, py; ring(x[0], 0, px, py); return new PolyElem(px, py, x[1] == 0 ? TEST : x[1] == 3 ? -1.23456789012345e+100 : -1.5, x[1] == 2 ? 1. / 3. : x[1] == 3 ? -1.23456789012345e-100 : TEST); })
-    .fromNF([](const std::string& p) { return PolyElem::createFromNF(p, false); })
+    .fromNF([](const std::string& p) { return PolyElem::createFromNF(p, nf_verbose()); })
     .getters([](const PolyElem& p, Fp& fp) { fp.D("zlimits:zmin", p.getZmin()); fp.D("zlimits:zmax", p.getZmax()); polyline_getters(p, fp, ""); })
     .nontrivial([](const std::vector<int>& x) { return x[1] > 0; })
     .corpus({{0, 1}})
@@ -1304,7 +1305,7 @@ inline void register_lines()
       Faults* f = new Faults();
       for (int k = 0; k < x[0]; k++) { VectorDouble px, py; ring(x[1] >= 4 ? x[1] : (x[1] + k) % 4, x[1] >= 4 ? 0 : k, px, py); f->addFault(PolyLine2D(px, py)); }
       return f; })
-    .fromNF([](const std::string& p) { return Faults::createFromNF(p, false); })
+    .fromNF([](const std::string& p) { return Faults::createFromNF(p, nf_verbose()); })
     .getters([](const Faults& f, Fp& fp) { fp.I("count:nfaults", f.getNFaults()); for (int k = 0; k < f.getNFaults(); k++) polyline_getters(f.getFault(k), fp, "fault" + std::to_string(k) + "."); })
     .probe([](Faults& f, Fp& fp) {
       for (int i = 0; i < 4; i++) for (int j = 0; j < 4; j++)
@@ -1326,7 +1327,7 @@ inline void register_lines()
         e->addFault(ft);
       }
       return e; })
-    .fromNF([](const std::string& p) { return FracEnviron::createFromNF(p, false); })
+    .fromNF([](const std::string& p) { return FracEnviron::createFromNF(p, nf_verbose()); })
     .getters([](const FracEnviron& e, Fp& fp) {
       fp.I("count:nfamilies", e.getNFamilies()); fp.I("count:nfaults", e.getNFaults());
       fp.D("env:xmax", e.getXmax()); fp.D("env:ymax", e.getYmax()); fp.D("env:deltax", e.getDeltax()); fp.D("env:deltay", e.getDeltay()); fp.D("env:mean", e.getMean()); fp.D("env:stdev", e.getStdev());
@@ -1361,7 +1362,7 @@ inline void register_db2()
       for (int i = 0; i < n; i++) tab.push_back((double)(i / 3) + 0.5);
       for (int v = 0; v < nvar; v++) { names.push_back("z" + std::to_string(v + 1)); locs.push_back("z" + std::to_string(v + 1)); for (int i = 0; i < n; i++) tab.push_back(pick_value(vset_of(x[2], 3), i, v)); }
       return DbLine::createFromSamples(n, ELoadBy::COLUMN, tab, counts, names, locs, true); })
-    .fromNF([](const std::string& p) { return DbLine::createFromNF(p, false); })
+    .fromNF([](const std::string& p) { return DbLine::createFromNF(p, nf_verbose()); })
     .getters([](const DbLine& d, Fp& fp) {
       fp.I("lines:nlines", d.getLineNumber());
       for (int l = 0; l < d.getLineNumber(); l++) { fp.I("lines:count" + std::to_string(l), d.getLineSampleCount(l)); fp.VI("lines:adds" + std::to_string(l), d._lineAdds[l]); }
@@ -1391,7 +1392,7 @@ inline void register_db2()
       if (x[0] == 1) { arcs.add(0, 1, 0.5); arcs.add(0, 2, 0.75); arcs.add(2, 3, 1. / 3.); }
       if (x[0] == 2) { arcs.add(0, 3, 2.5); }
       return DbGraphO::createFromSamples(n, ELoadBy::COLUMN, tab, arcs, {"x1", "x2", "z1"}, {"x1", "x2", "z1"}, true); })
-    .fromNF([](const std::string& p) { return DbGraphO::createFromNF(p, false); })
+    .fromNF([](const std::string& p) { return DbGraphO::createFromNF(p, nf_verbose()); })
     .getters([](const DbGraphO& d, Fp& fp) {
       fp.I("arcs:narcs", d.getArcNumber());
       NF_Triplet t = d.getMatArcs().getMatrixToTriplet();
@@ -1413,7 +1414,7 @@ inline void register_db2()
       int n = 1; for (int d = 0; d < ndim; d++) n *= nx[d];
       VectorDouble tab; for (int i = 0; i < n; i++) tab.push_back(pick_value(vset_of(x[3], 2), i, 0));
       return DbMeshTurbo::create(nx, dx, x0, ang, ELoadBy::SAMPLE, tab, {"z1"}, {"z1"}, x[2] != 0, false); })
-    .fromNF([](const std::string& p) { return DbMeshTurbo::createFromNF(p, false); })
+    .fromNF([](const std::string& p) { return DbMeshTurbo::createFromNF(p, nf_verbose()); })
     .getters([](const DbMeshTurbo& d, Fp& fp) {
       fp.I("mesh:napices", d.getNApices()); fp.I("mesh:nmeshes", d.getNMeshes());
       for (int im = 0; im < d.getNMeshes(); im++) for (int r = 0; r < d._mesh.getNApexPerMesh(); r++) fp.I("mesh:apex(" + std::to_string(im) + "," + std::to_string(r) + ")", d.getApex(im, r));
@@ -1432,7 +1433,7 @@ inline void register_db2()
       VectorInt ms; for (int m = 0; m < nm; m++) for (int r = 0; r < ndim + 1; r++) ms.push_back(m == 0 ? r : r + 1);
       VectorDouble tab; for (int i = 0; i < nap; i++) tab.push_back(pick_value(vset_of(x[2], 2), i, 0));
       return DbMeshStandard::create(ndim, ndim + 1, ap, ms, ELoadBy::SAMPLE, tab, {"z1"}, {"z1"}, false); })
-    .fromNF([](const std::string& p) { return DbMeshStandard::createFromNF(p, false); })
+    .fromNF([](const std::string& p) { return DbMeshStandard::createFromNF(p, nf_verbose()); })
     .getters([](const DbMeshStandard& d, Fp& fp) {
       fp.I("mesh:napices", d._mesh.getNApices()); fp.I("mesh:nmeshes", d._mesh.getNMeshes());
       fp.VI("mesh:list", d._mesh.getMeshList()); fp.VD("mesh:apices", d._mesh.getPointList(true));
